@@ -24,10 +24,28 @@ type ssaFunc = ssa.Function
 var timeLimitSec int
 
 const (
-	repoDir  = "/repo"
 	verifDir = "/verif"
 	modPath  = "github.com/elastos/Elastos.ELA"
 )
+
+// repoDir is /repo for every registered command. SYMGO_REPO points the engine
+// at a scratch worktree instead (used only to try seeded changes without
+// touching /repo); SYMGO_OUT then receives the evidence and replay vectors so
+// that /verif/evidence is never written from a run against another tree.
+var (
+	repoDir = "/repo"
+	outDir  = verifDir
+)
+
+func init() {
+	if r := os.Getenv("SYMGO_REPO"); r != "" {
+		repoDir = r
+		outDir = os.Getenv("SYMGO_OUT")
+		if outDir == "" {
+			outDir = filepath.Join(os.TempDir(), "symgo-out")
+		}
+	}
+}
 
 func main() {
 	if len(os.Args) < 2 {
@@ -220,7 +238,7 @@ func runCheck(prop, tier string, seed int, only string, verbose bool, workers in
 	}
 	res.LoadSecs = time.Since(tl).Seconds()
 	hs := sym.FindHarnesses(spkgs, prop)
-	cfg := sym.Config{MaxSymLen: 16, Unwind: 4096, MaxSteps: 20_000_000, MaxDepth: 300, ModulePath: modPath}
+	cfg := sym.Config{MaxSymLen: 16, Unwind: 4096, MaxSteps: 20_000_000, MaxDepth: 300, ModulePath: modPath, RepoDir: repoDir}
 	ex := sym.NewExplorer(prog, cfg)
 	ex.Workers = workers
 	ex.Verbose = verbose
@@ -300,10 +318,10 @@ func runCheck(prop, tier string, seed int, only string, verbose bool, workers in
 
 	known := loadKnown()
 	violated := false
-	os.MkdirAll(filepath.Join(verifDir, "replay", prop), 0o755)
+	os.MkdirAll(filepath.Join(outDir, "replay", prop), 0o755)
 	for i, v := range ex.Violations {
 		vr := vioReport{Harness: v.Harness, ID: v.ID, Site: v.Site, Func: v.Func, Msg: v.Msg}
-		path := filepath.Join(verifDir, "replay", prop, fmt.Sprintf("%s-%d.json", v.Harness, i))
+		path := filepath.Join(outDir, "replay", prop, fmt.Sprintf("%s-%d.json", v.Harness, i))
 		writeVector(path, prop, v, ex.Tier, pkgOfHarness(hs, v.Harness))
 		vr.Replay = path
 		if noReplay {
@@ -660,7 +678,7 @@ func writeEvidence(prop, tier string, seed int, r *checkResult) {
 		"wall_s":     r.Wall,
 		"violations": len(r.Violations) - r.Known,
 	}
-	os.MkdirAll(filepath.Join(verifDir, "evidence"), 0o755)
+	os.MkdirAll(filepath.Join(outDir, "evidence"), 0o755)
 	b, _ := json.MarshalIndent(ev, "", " ")
-	os.WriteFile(filepath.Join(verifDir, "evidence", prop+".json"), b, 0o644)
+	os.WriteFile(filepath.Join(outDir, "evidence", prop+".json"), b, 0o644)
 }
